@@ -22,6 +22,7 @@
 #include <fstream>
 #include <iomanip>
 #include <iostream>
+#include <new>
 #include <memory>
 #include <sstream>
 #include <string>
@@ -372,6 +373,12 @@ namespace bloch::cli {
                         return 0;
                     }
                 }
+            } catch (const std::bad_alloc&) {
+                std::cerr << bloch::support::format(bloch::support::MessageLevel::Error, 0, 0,
+                                                    "Stopping program execution...");
+                std::cerr << bloch::support::format(bloch::support::ErrorCategory::Runtime, 0, 0,
+                                                    "out of memory");
+                return 1;
             } catch (const std::exception& ex) {
                 // Print a clear stop message, then the actual error
                 std::cerr << bloch::support::format(bloch::support::MessageLevel::Error, 0, 0,
